@@ -61,6 +61,31 @@ class C13(Prop):
                     yield {"zone": zone, "now": now, "extra": extra}
                 i += 1
 
+    def _pass(self, acc, f, zone, now, wd, now_min, utc, grid, day_sets):
+        for days in day_sets:
+            dayset = {self.members[d] for d in days}
+            for sm in grid:
+                start = f"{sm // 60:02d}:{sm % 60:02d}"
+                acc.ev()
+                try:
+                    text = f(start, dayset) if dayset else f(start)
+                except Exception as exc:
+                    acc.violation("raised", f"pretty_next_run({start},{sorted(days)}) raised {type(exc).__name__}",
+                                  {"start": start, "days": sorted(days)})
+                    continue
+                want = clock.next_run(wd, now_min, sm, set(days))
+                got = clock.classify_text(text, start)
+                ok = got[0] == want[0] and (want[0] != "next" or got[1] == want[1])
+                if not ok:
+                    mech = f"next-run-wrong:{want[0]}->{got[0]}"
+                    if got[0] == "next" and got[1] is not None and got[1] not in days:
+                        mech = "names-unselected-weekday"
+                    acc.violation(mech,
+                                  f"{zone} local {WD[wd]} {now_min // 60:02d}:{now_min % 60:02d} (UTC {WD[utc.weekday()]} {utc:%H:%M}), "
+                                  f"days {[WD[d] for d in sorted(days)]}, start {start}: got {text!r}, want {want[0]}"
+                                  + (f" {WD[want[1]]}" if want[0] == 'next' else ""),
+                                  {"start": start, "days": sorted(days), "got": text, "want": [want[0], WD[want[1]]], "zone": zone, "now": now})
+
     def run_case(self, case, acc, ctx):
         zone, now = case["zone"], case["now"]
         clock.set_zone(zone)
@@ -76,36 +101,22 @@ class C13(Prop):
         # other parts of the library have been used earlier, at another time: a listing that failed to parse and one that parsed
         from ..ref import replies as _rp
 
-        with clock.virtual_time(now - 3 * 86400 - 4000):
-            for mask in (0x54, 0xFF):     # the failing one last: nothing afterwards tidies up behind it
+        with clock.virtual_time(now - 3 * 86400 - 4000 if now % 3 else now - 40):
+            for mask in ((0x54, 0xFF) if now % 2 else ()):     # the failing one last: nothing afterwards tidies up behind it
                 try:
                     self.parser.get_schedules(_rp.schedules([_rp.schedule_record(0, 0x02, now, now + 60), _rp.schedule_record(1, mask, now, now + 60)]))
                 except Exception:
                     acc.count("earlier_listing_that_failed")
-        with clock.virtual_time(now):
-            for days in ALL_SETS:
-                dayset = {self.members[d] for d in days}
-                for sm in grid:
-                    start = f"{sm // 60:02d}:{sm % 60:02d}"
-                    acc.ev()
-                    try:
-                        text = f(start, dayset) if dayset else f(start)
-                    except Exception as exc:
-                        acc.violation("raised", f"pretty_next_run({start},{sorted(days)}) raised {type(exc).__name__}",
-                                      {"start": start, "days": sorted(days)})
-                        continue
-                    want = clock.next_run(wd, now_min, sm, set(days))
-                    got = clock.classify_text(text, start)
-                    ok = got[0] == want[0] and (want[0] != "next" or got[1] == want[1])
-                    if not ok:
-                        mech = f"next-run-wrong:{want[0]}->{got[0]}"
-                        if got[0] == "next" and got[1] is not None and got[1] not in days:
-                            mech = "names-unselected-weekday"
-                        acc.violation(mech,
-                                      f"{zone} local {WD[wd]} {now_min // 60:02d}:{now_min % 60:02d} (UTC {WD[utc.weekday()]} {utc:%H:%M}), "
-                                      f"days {[WD[d] for d in sorted(days)]}, start {start}: got {text!r}, want {want[0]}"
-                                      + (f" {WD[want[1]]}" if want[0] == 'next' else ""),
-                                      {"start": start, "days": sorted(days), "got": text, "want": [want[0], WD[want[1]]]})
+        with clock.virtual_time(now) as traveller:
+            self._pass(acc, f, zone, now, wd, now_min, utc, grid, ALL_SETS)
+            # the process keeps running: the same questions again 7, 61 and 200 minutes later (often still the same local day)
+            for later in (420, 3660, 12000):
+                t2 = now + later
+                traveller.move_to(float(t2))
+                loc2 = clock.local(zone, t2)
+                some = [ALL_SETS[(now + k * 37) % 128] for k in range(24)]
+                self._pass(acc, f, zone, t2, loc2.weekday(), loc2.hour * 60 + loc2.minute, datetime.fromtimestamp(t2, timezone.utc), grid, some)
+            traveller.move_to(float(now))
             # through the schedule object
             for _ in range(4):
                 days = r.choice(ALL_SETS)
